@@ -4,11 +4,16 @@ import MxModel.Exec.Expr
 holds for every environment the driver builds. -/
 namespace MxModel.Exec
 
-def HOK (h : Bool → Err → Prog) : Prop :=
-  (∀ e, Proper (h true e)) ∧ (∀ e, h false e = .reraise e ∨ Proper (h false e))
+/-- error continuations: a new exception in a formula that is `live` or not, and an exception
+received from a callee (after which the formula is live) -/
+def HOK (live : Bool) (h : Bool → Err → Prog) : Prop :=
+  (∀ e, ProperL live (h true e)) ∧ (∀ e, ProperL true (h false e))
 
-theorem arith_proper (op : Int → Int → Int) (a b : Val) (k : Val → Prog) (h : Bool → Err → Prog)
-    (hk : ∀ v, Proper (k v)) (hh : HOK h) : Proper (arith op a b k h) := by
+theorem HOK.of {live : Bool} {h : Bool → Err → Prog} (hh : HOK live h) : HOK true h :=
+  ⟨fun e => ProperL.of live _ (hh.1 e), hh.2⟩
+
+theorem arith_proper (live : Bool) (op : Int → Int → Int) (a b : Val) (k : Val → Prog) (h : Bool → Err → Prog)
+    (hk : ∀ v, ProperL live (k v)) (hh : HOK live h) : ProperL live (arith op a b k h) := by
   unfold arith
   split
   · exact hk _
@@ -16,81 +21,99 @@ theorem arith_proper (op : Int → Int → Int) (a b : Val) (k : Val → Prog) (
 
 mutual
 theorem compile_proper (ar : CellId → Option Nat) (params : List Val) :
-    ∀ (e : Expr) (k : Val → Prog) (h : Bool → Err → Prog),
-      (∀ v, Proper (k v)) → HOK h → Proper (compile ar params e k h)
-  | .lit i, k, h, hk, _ => by simp only [compile]; exact hk _
-  | .none, k, h, hk, _ => by simp only [compile]; exact hk _
-  | .param i, k, h, hk, hh => by
+    ∀ (e : Expr) (live : Bool) (k : Val → Prog) (h : Bool → Err → Prog),
+      (∀ v, ProperL live (k v)) → HOK live h → ProperL live (compile ar params e k h)
+  | .lit i, live, k, h, hk, _ => by simp only [compile]; exact hk _
+  | .none, live, k, h, hk, _ => by simp only [compile]; exact hk _
+  | .param i, live, k, h, hk, hh => by
     simp only [compile]; split
     · exact hk _
     · exact hh.1 _
-  | .add a b, k, h, hk, hh => by
+  | .add a b, live, k, h, hk, hh => by
     simp only [compile]
-    exact compile_proper ar params a _ h (fun x => compile_proper ar params b _ h
-      (fun y => arith_proper _ x y k h hk hh) hh) hh
-  | .sub a b, k, h, hk, hh => by
+    exact compile_proper ar params a live _ h (fun x => compile_proper ar params b live _ h
+      (fun y => arith_proper live _ x y k h hk hh) hh) hh
+  | .sub a b, live, k, h, hk, hh => by
     simp only [compile]
-    exact compile_proper ar params a _ h (fun x => compile_proper ar params b _ h
-      (fun y => arith_proper _ x y k h hk hh) hh) hh
-  | .mul a b, k, h, hk, hh => by
+    exact compile_proper ar params a live _ h (fun x => compile_proper ar params b live _ h
+      (fun y => arith_proper live _ x y k h hk hh) hh) hh
+  | .mul a b, live, k, h, hk, hh => by
     simp only [compile]
-    exact compile_proper ar params a _ h (fun x => compile_proper ar params b _ h
-      (fun y => arith_proper _ x y k h hk hh) hh) hh
-  | .lt a b, k, h, hk, hh => by
+    exact compile_proper ar params a live _ h (fun x => compile_proper ar params b live _ h
+      (fun y => arith_proper live _ x y k h hk hh) hh) hh
+  | .lt a b, live, k, h, hk, hh => by
     simp only [compile]
-    exact compile_proper ar params a _ h (fun x => compile_proper ar params b _ h
-      (fun y => arith_proper _ x y k h hk hh) hh) hh
-  | .ite c a b, k, h, hk, hh => by
+    exact compile_proper ar params a live _ h (fun x => compile_proper ar params b live _ h
+      (fun y => arith_proper live _ x y k h hk hh) hh) hh
+  | .ite c a b, live, k, h, hk, hh => by
     simp only [compile]
-    refine compile_proper ar params c _ h (fun x => ?_) hh
+    refine compile_proper ar params c live _ h (fun x => ?_) hh
     split
-    · exact compile_proper ar params a k h hk hh
-    · exact compile_proper ar params b k h hk hh
-  | .call c args, k, h, hk, hh => by
+    · exact compile_proper ar params a live k h hk hh
+    · exact compile_proper ar params b live k h hk hh
+  | .call c args, live, k, h, hk, hh => by
     simp only [compile]
     split
     · exact hh.1 _
-    · refine compileArgs_proper ar params args _ h (fun vs => ?_) hh
+    · refine compileArgs_proper ar params args live _ h (fun vs => ?_) hh
       split
-      · simp only [Proper]
+      · simp only [ProperL]
         exact ⟨fun v => hk v, fun e => hh.2 e⟩
       · exact hh.1 _
-  | .readN r, k, h, hk, hh => by
-    simp only [compile, Proper]; intro o; cases o with
+  | .readN r, live, k, h, hk, hh => by
+    simp only [compile, ProperL]; intro o; cases o with
     | some v => exact hk v
     | none => exact hh.1 _
-  | .readA r, k, h, hk, hh => by
-    simp only [compile, Proper]; intro o; cases o with
+  | .readA r, live, k, h, hk, hh => by
+    simp only [compile, ProperL]; intro o; cases o with
     | some v => exact hk v
     | none => exact hh.1 _
-  | .raise e, k, h, _, hh => by simp only [compile]; exact hh.1 _
-  | .try_ a c b, k, h, hk, hh => by
+  | .raise e, live, k, h, _, hh => by simp only [compile]; exact hh.1 _
+  | .try_ a c b, live, k, h, hk, hh => by
     simp only [compile]
-    refine compile_proper ar params a k _ hk ⟨fun e => ?_, fun e => ?_⟩
-    · show Proper (if c.catches e = true then compile ar params b k h else h true e)
+    refine compile_proper ar params a live k _ hk ⟨fun e => ?_, fun e => ?_⟩
+    · show ProperL live (if c.catches e = true then compile ar params b k h else h true e)
       split
-      · exact compile_proper ar params b k h hk hh
+      · exact compile_proper ar params b live k h hk hh
       · exact hh.1 e
-    · show (if c.catches e = true then compile ar params b k h else h false e) = Prog.reraise e ∨
-        Proper (if c.catches e = true then compile ar params b k h else h false e)
+    · show ProperL true (if c.catches e = true then compile ar params b k h else h false e)
       split
-      · exact Or.inr (compile_proper ar params b k h hk hh)
+      · exact compile_proper ar params b true k h (fun v => ProperL.of live _ (hk v)) hh.of
       · exact hh.2 e
+  | .tryRe a c b, live, k, h, hk, hh => by
+    simp only [compile]
+    refine compile_proper ar params a live k _ hk ⟨fun e => ?_, fun e => ?_⟩
+    · show ProperL live (if c.catches e = true then compile ar params b (fun _ => h true e) h else h true e)
+      split
+      · exact compile_proper ar params b live _ h (fun _ => hh.1 e) hh
+      · exact hh.1 e
+    · -- the exception was received from a callee: the block runs while the formula is live, and
+      -- ends in the re-raise
+      show ProperL true (if c.catches e = true then compile ar params b (fun _ => h false e) h else h false e)
+      split
+      · exact compile_proper ar params b true _ h (fun _ => hh.2 e) hh.of
+      · exact hh.2 e
+  | .tryFin a b, live, k, h, hk, hh => by
+    simp only [compile]
+    refine compile_proper ar params a live _ _
+      (fun v => compile_proper ar params b live _ h (fun _ => hk v) hh) ⟨fun e => ?_, fun e => ?_⟩
+    · exact compile_proper ar params b live _ h (fun _ => hh.1 e) hh
+    · exact compile_proper ar params b true _ h (fun _ => hh.2 e) hh.of
 theorem compileArgs_proper (ar : CellId → Option Nat) (params : List Val) :
-    ∀ (es : List Expr) (k : List Val → Prog) (h : Bool → Err → Prog),
-      (∀ vs, Proper (k vs)) → HOK h → Proper (compileArgs ar params es k h)
-  | [], k, h, hk, _ => by simp only [compileArgs]; exact hk _
-  | e :: es, k, h, hk, hh => by
+    ∀ (es : List Expr) (live : Bool) (k : List Val → Prog) (h : Bool → Err → Prog),
+      (∀ vs, ProperL live (k vs)) → HOK live h → ProperL live (compileArgs ar params es k h)
+  | [], live, k, h, hk, _ => by simp only [compileArgs]; exact hk _
+  | e :: es, live, k, h, hk, hh => by
     simp only [compileArgs]
-    exact compile_proper ar params e _ h
-      (fun v => compileArgs_proper ar params es _ h (fun vs => hk _) hh) hh
+    exact compile_proper ar params e live _ h
+      (fun v => compileArgs_proper ar params es live _ h (fun vs => hk _) hh) hh
 end
 
 theorem formulaOf_proper (ar : CellId → Option Nat) (e : Expr) (key : Key) :
     Proper (formulaOf ar e key) := by
-  unfold formulaOf
-  refine compile_proper ar key e _ _ (fun v => by simp [Proper]) ⟨fun e => ?_, fun e => ?_⟩
-  · simp [Proper]
-  · left; simp
+  unfold formulaOf Proper
+  refine compile_proper ar key e false _ _ (fun v => by simp [ProperL]) ⟨fun e => ?_, fun e => ?_⟩
+  · simp [ProperL]
+  · simp [ProperL]
 
 end MxModel.Exec
